@@ -14,7 +14,12 @@ from dask.dataframe.utils import (
 from dask.utils import M
 
 from dask_expr._accessor import Accessor, PropertyMap
-from dask_expr._expr import Blockwise, Elemwise, Projection
+from dask_expr._expr import (
+    Blockwise,
+    Elemwise,
+    Projection,
+    determine_column_projection,
+)
 from dask_expr._reductions import ApplyConcatApply
 
 
@@ -166,7 +171,6 @@ class AsUnknown(Elemwise):
 class Categorize(Blockwise):
     _parameters = ["frame", "categories", "index"]
     operation = staticmethod(_categorize_block)
-    _projection_passthrough = True
 
     @functools.cached_property
     def _meta(self):
@@ -174,6 +178,25 @@ class Categorize(Blockwise):
             self.frame._meta, self.operand("categories"), self.operand("index")
         )
         return meta
+
+    def _simplify_up(self, parent, dependents):
+        if isinstance(parent, Projection):
+            columns = determine_column_projection(self, parent, dependents)
+            if not isinstance(columns, list):
+                columns = [columns]
+            columns = [col for col in self.frame.columns if col in columns]
+            if columns == self.frame.columns:
+                return
+            # the categories of columns that are no longer carried go with them
+            categories = {
+                col: values
+                for col, values in self.operand("categories").items()
+                if col in columns
+            }
+            result = Categorize(
+                self.frame[columns], categories, self.operand("index")
+            )
+            return type(parent)(result, *parent.operands[1:])
 
 
 class GetCategories(ApplyConcatApply):
